@@ -78,10 +78,12 @@ def run(ck):
     # ---------------- R4 ----------------
     for f in [x for x in prog.by_base.get("Pistache::match_string", []) if len(x.params) >= 4]:
         tl = [e for e in f.calls(lambda e: (e.get("callee") or "") in ("tolower", "std::tolower"))]
-        cmp_events = [e for e in f.events("cmp") if e.get("op") in ("!=", "==") and (e["lhs"].get("v") in ("lhs", "rhs") or e["rhs"].get("v") in ("lhs", "rhs"))]
+        # the two characters compared in the insensitive arm: both operands of the != / == test are locals initialised through tolower
         decls = {d["var"]: d for d in f.events("decl")}
-        folded = [v for v in ("lhs", "rhs") if v in decls and "tolower" in ((decls[v].get("init") or {}).get("t") or "")]
-        ok = len(tl) >= 2 and len(folded) == 2
+        cmp_events = [e for e in f.events("cmp") if e.get("op") in ("!=", "==") and e["lhs"].get("v") in decls and e["rhs"].get("v") in decls
+                      and "char" in (decls[e["lhs"]["v"]].get("type") or "") and "char" in (decls[e["rhs"]["v"]].get("type") or "")]
+        folded = [v for e in cmp_events for v in (e["lhs"]["v"], e["rhs"]["v"]) if "tolower" in ((decls[v].get("init") or {}).get("t") or "")]
+        ok = len(tl) >= 2 and bool(cmp_events) and len(folded) == 2 * len(cmp_events)
         ck.ob("C18-R4", "match_string/folds-with-tolower", ok, f.loc, f, "both compared characters go through std::tolower" if ok else
               "the case-insensitive comparison does not fold both operands with tolower (%d tolower calls): punctuation may alias control characters" % len(tl))
     qf = lib.single(prog, M + "Q::fromFloat")
